@@ -127,6 +127,7 @@ package main
 //@   at call main.findFiles assert [C15] relative-arguments-are-resolved-against-the-working-directory-as-reported: arg0 == ret("funcval:main.mainCmd.Getwd", 0) && arg1 == opts.Args.Patterns
 //@   at call main.loadPatches assert [C12,C14] one-file-set-for-patches-and-targets: arg0 == ret("go/token.NewFileSet", 0)
 //@   at call main.newPatchRunner assert [C12,C14] one-file-set-for-patches-and-targets: arg0 == ret("go/token.NewFileSet", 0)
+//@   at call go/parser.ParseFile#0 assert [C11,C17] targets-are-parsed-with-comments-and-resolved-identifiers: arg3 == const("go/parser.AllErrors") + const("go/parser.ParseComments")
 //@   at call go/parser.ParseFile#0 assert [C12,C14] the-file-is-parsed-into-the-file-set-the-patches-were-compiled-with: arg0 == ret("go/token.NewFileSet", 0)
 //@   at call go/format.Node assert [C12,C14] printed-with-the-same-file-set: arg1 == ret("go/token.NewFileSet", 0)
 //@   at call go/parser.ParseFile#0 set echoMark = echoes
